@@ -654,6 +654,7 @@ func (a *Assembler) AssembleWithContext(netFlow gopacket.Flow, t *layers.TCP, ac
 		}
 		return
 	}
+	verifYield("assemble:before-conn-lock")
 	conn.mu.Lock()
 	defer conn.mu.Unlock()
 	if half.lastSeen.Before(timestamp) {
@@ -1274,6 +1275,7 @@ func (a *Assembler) FlushWithOptions(opt FlushOptions) (flushed, closed int) {
 	flushes := 0
 	for _, conn := range conns {
 		remove := false
+		verifYield("flush:before-conn-lock")
 		conn.mu.Lock()
 		for _, half := range []*halfconnection{&conn.s2c, &conn.c2s} {
 			flushed, closed := a.flushClose(conn, half, opt.T, opt.TC)
@@ -1328,6 +1330,7 @@ func (a *Assembler) FlushAll() (closed int) {
 	conns := a.connPool.connections()
 	closed = len(conns)
 	for _, conn := range conns {
+		verifYield("flushall:before-conn-lock")
 		conn.mu.Lock()
 		for _, half := range []*halfconnection{&conn.s2c, &conn.c2s} {
 			for !half.closed {
